@@ -471,7 +471,17 @@ fn gen_target(rng: &mut Rng, v6: bool, unique: usize) -> TargetSpec {
 }
 
 /// Hosts that denote no IP address in any textual form (and are no plausible host name either).
-const BAD_HOSTS: [&str; 20] = [
+const BAD_HOSTS: [&str; 27] = [
+    // numbers in the forms only the old C resolver functions read (octal, hexadecimal, fewer than
+    // four parts, one 32-bit number): no IPv4 address as the protocol buffers contract or Rust's
+    // parser know it, and read as one they turn into ANOTHER address than the digits suggest
+    "010.0.0.1",
+    "10.1.7",
+    "127.1",
+    "0x7f.0.0.1",
+    "2130706433",
+    "0",
+    "1.2.3.04",
     "fe80::1%eth0",
     "fe80::1%3",
     "10.0.0.2%lobby",
@@ -710,10 +720,23 @@ fn gen_select(rng: &mut Rng) -> Case {
 
 /// `n` cases for `seed`: discover and select alternate; each case has its own PRNG stream.
 pub fn generate(seed: u64, n: usize) -> Vec<Case> {
-    (0..n)
+    let mut cases: Vec<Case> = (0..n)
         .map(|i| {
             let mut rng = Rng::stream(seed, i as u64);
             if i % 2 == 0 { gen_discover(&mut rng) } else { gen_select(&mut rng) }
         })
-        .collect()
+        .collect();
+    // every host of the list of bad ones at least once in every run, alone and behind a good target
+    for (i, bad) in BAD_HOSTS.iter().enumerate() {
+        let mut rng = Rng::stream(seed, 1_000_000 + i as u64);
+        let mut reply = gen_list(&mut rng, 1 + i % 2, 0);
+        if let Some(last) = reply.last_mut() {
+            last.host = Some((*bad).to_string());
+            last.form = "bad-host".into();
+            last.expect = "err".into();
+            last.malformed = Some("bad-host".into());
+        }
+        cases.push(Case::Discover { reply });
+    }
+    cases
 }
